@@ -1,6 +1,7 @@
 #!/bin/sh
 # maintenance: re-run every registered quick check on the (clean) /repo tree so committed evidence is current
 cd /verif
+python3 tools/stub_consistency.py > /dev/null || { python3 tools/stub_consistency.py | grep -v ": ok"; echo "restated contracts drifted"; exit 1; }
 git -C /repo status --porcelain | grep -q . && { echo "/repo is dirty"; exit 1; }
 for p in $(python3 -c "import json;print(' '.join(c['property_id'] for c in json.load(open('MANIFEST.json'))['checks']))"); do
   ./check $p --tier quick | tail -1
